@@ -478,6 +478,8 @@ class Model:
         f = self.fs.get(p)
         if f is not None and f.owner == "user":
             return seen
+        if f is None and p not in self.targets:
+            return seen   # neither a file nor one of the project's targets: a leaf (e.g. an absent watched path)
         rule = self.rule_for(p)
         if rule is None:
             return seen
